@@ -261,9 +261,11 @@ def main():
             if st_s != "ok":
                 h.violation("study:run", f"{desc}: describing the assembled mosaic as a study {st_s}: {study_astro}", input=inp)
                 study_astro = None
-            for par in ((1, 2) if strips else (1, 3)):
+            # (the many-pieces-in-one-tile configuration is run with two REAL worker processes several times: whether a worker's
+            # consecutive updates of the tile get another worker's update in between is up to the operating system)
+            for rep, par in enumerate((1, 2, 2, 2, 2, 3, 3, 2, 2) if strips else (1, 3)):
                 order = list(range(k))
-                if not strips:
+                if not strips or rep >= 2:
                     rng.shuffle(order)
                 out_dir = os.path.join(cdir, f"multi_p{par}")
                 st, res = run_isolated(_run, ([paths[j] for j in order], out_dir, fmt, par), 300)
@@ -333,6 +335,24 @@ def main():
                 h.count("inputs", k)
                 shutil.rmtree(out_dir, ignore_errors=True)
             shutil.rmtree(cdir, ignore_errors=True)
+        # ---- many pieces of ONE tile tiled by two / three workers under the deterministic scheduler (the real `MultiTanProcessor.tile`
+        # on simulated multiprocessing, random schedules): the result is the serial one whatever the interleaving of the workers' locked
+        # updates.  (The real-process runs above meet such interleavings only by luck.)
+        try:
+            from . import c10 as _c10
+            from .. import simmp as _simmp
+            for si in range(24 if h.deep else 8):
+                nimg, par_s = rng.choice([(3, 2), (4, 2), (4, 3), (4, 2)])      # (4 pieces of 60 px still fit the single level-0 tile)
+                seed_s = rng.randrange(2 ** 31)
+                bad_s, sim_s = _c10.caller_scenario(os.path.join(root, f"sim{si}"), nimg, par_s, _simmp.RandomChooser(seed_s, timeout_weight=0.05), rng, fork_copy=True)
+                h.case(("sim-one-tile", nimg, par_s, seed_s))
+                h.count("runs", f"simulated/{nimg} pieces/par{par_s}")
+                if bad_s:
+                    h.violation(f"mosaic:sim:{par_s}", f"{nimg} pieces of one tile tiled by MultiTanProcessor.tile(parallel={par_s}) under a simulated schedule (seed {seed_s}): {bad_s}",
+                                input={"pieces": nimg, "parallel": par_s, "schedule_seed": seed_s, "choices": list(sim_s.choices)[:400]}, observed=bad_s)
+                    break
+        except Exception as e:  # noqa
+            h.corr_fail("simulated-one-tile", {"error": f"{type(e).__name__}: {e}"})
         try:
             out = lean_driver(lines)
             diff_streams(h, "global-pixelisation", lines, py, out)
